@@ -335,3 +335,78 @@ if __name__ == '__main__':
     import sys, json
     for p in (sys.argv[1:] or sorted({s[0] for s in SITES})):
         print(p, json.dumps(formulas(p), indent=1))
+    if not sys.argv[1:]:
+        print('presets', json.dumps(presets(), indent=1))
+
+
+# ---------------------------------------------------------------------------------------------------------------------------
+# GraphSpecs presets: the six constructors of src/graph_specs.rs and the spec literals the generators build their graphs with
+
+FIELD = {'directed': 'directed', 'multi_edges': 'multi', 'self_loops': 'selfLoops', 'edge_dedupe_strategy': 'dedupe',
+         'missing_node_strategy': 'missing', 'self_loops_false_strategy': 'slFalse'}
+VALUE = {'true': 'true', 'false': 'false', 'EdgeDedupeStrategy::Error': '.error', 'EdgeDedupeStrategy::KeepFirst': '.keepFirst',
+         'EdgeDedupeStrategy::KeepLast': '.keepLast', 'MissingNodeStrategy::Create': '.create', 'MissingNodeStrategy::Error': '.error',
+         'SelfLoopsFalseStrategy::Error': '.error', 'SelfLoopsFalseStrategy::Drop': '.drop'}
+
+
+def parse_spec_literal(text, presets):
+    """`GraphSpecs { f: v, .. , ..BASE }` | `GraphSpecs::preset()` | `DEFAULT_GRAPH_SPECS` -> dict of Lean field values"""
+    text = ' '.join(text.split())
+    m = re.fullmatch(r'GraphSpecs::(\w+)\(\)', text)
+    if m:
+        return dict(presets[m.group(1)])
+    if text == 'DEFAULT_GRAPH_SPECS':
+        return dict(presets['DEFAULT'])
+    m = re.fullmatch(r'GraphSpecs \{(.*)\}', text)
+    if not m:
+        raise ParseError('not a GraphSpecs expression: ' + text[:60])
+    rec = {}
+    for part in [p.strip() for p in m.group(1).split(',') if p.strip()]:
+        if part.startswith('..'):
+            base = parse_spec_literal(part[2:].strip(), presets)
+            for k, v in base.items():
+                rec.setdefault(k, v)
+        else:
+            k, v = [x.strip() for x in part.split(':', 1)]
+            if k not in FIELD or v not in VALUE:
+                raise ParseError(f'unknown field or value `{part}`')
+            rec[FIELD[k]] = VALUE[v]
+    if set(rec) != set(FIELD.values()):
+        raise ParseError('incomplete GraphSpecs literal: ' + text[:80])
+    return rec
+
+
+def presets(ctx=None):
+    """regenerate Generated/Presets.lean"""
+    problems, out = [], {}
+    try:
+        src = strip_comments(open(os.path.join(REPO, 'src/graph_specs.rs')).read())
+        m = re.search(r'const DEFAULT_GRAPH_SPECS: GraphSpecs = (GraphSpecs \{.*?\});', src, flags=re.S)
+        table = {'DEFAULT': parse_spec_literal(m.group(1), {})}
+        for name in ['directed', 'directed_create_missing', 'undirected', 'undirected_create_missing', 'multi_directed', 'multi_undirected']:
+            m = re.search(r'pub fn %s\(\) -> GraphSpecs \{\s*(.*?)\s*\}\s*(?:pub fn|\}\s*$|/\*\*|\})' % name, src, flags=re.S)
+            body = m.group(1).strip()
+            if body.startswith('GraphSpecs {') and not body.endswith('}'):
+                body += '}'
+            table[name] = parse_spec_literal(body, table)
+            out[name] = table[name]
+        gsrc = {f: strip_comments(open(os.path.join(REPO, 'src/generators', f)).read()) for f in ('classic.rs', 'random.rs', 'social.rs')}
+        m = re.search(r'let specs = match directed \{\s*false => (GraphSpecs \{.*?\}),\s*true => (GraphSpecs \{.*?\}),\s*\};', gsrc['classic.rs'], flags=re.S)
+        out['completeUndirected'] = parse_spec_literal(m.group(1), table)
+        out['completeDirected'] = parse_spec_literal(m.group(2), table)
+        m = re.search(r'fn fast_gnp_random_graph_directed.*?Graph::new\((GraphSpecs::\w+\(\))\)', gsrc['random.rs'], flags=re.S)
+        out['gnpDirected'] = parse_spec_literal(m.group(1), table)
+        m = re.search(r'fn fast_gnp_random_graph_undirected.*?Graph::new\((GraphSpecs::\w+\(\))\)', gsrc['random.rs'], flags=re.S)
+        out['gnpUndirected'] = parse_spec_literal(m.group(1), table)
+        m = re.search(r'Graph::new_from_nodes_and_edges\(\s*nodes,\s*edges,\s*(GraphSpecs \{.*?\}),\s*\)', gsrc['social.rs'], flags=re.S)
+        out['karate'] = parse_spec_literal(m.group(1), table)
+    except (ParseError, AttributeError, KeyError) as ex:
+        problems.append(f'presets: cannot read the GraphSpecs constructors / generator specs: {ex!r}')
+    defs = []
+    for name, rec in out.items():
+        body = ', '.join(f'{k} := {rec[k]}' for k in ['directed', 'multi', 'selfLoops', 'dedupe', 'missing', 'slFalse'])
+        defs.append(f'def {name} : Specs := {{ {body} }}')
+    lean = ('/- GENERATED by tools/formulas.py (presets) from /repo/src/graph_specs.rs and /repo/src/generators/*.rs on every run; do not edit. -/\n'
+            'import GraphrsModel.Model.Store\nnamespace Graphrs\nnamespace Src\nnamespace Presets\n\n' + '\n'.join(defs) + '\n\nend Presets\nend Src\nend Graphrs\n')
+    changed = write_if_changed(os.path.join(GEN, 'Presets.lean'), lean)
+    return {'name': 'presets', 'problem': '; '.join(problems) or None, 'presets': {k: v for k, v in out.items()}, 'changed': changed}
